@@ -2,7 +2,7 @@
 plus generators of ovld types (Python object + model encoding side by side).
 
 Everything random derives from the `random.Random` passed in."""
-import abc, collections.abc, typing, itertools
+import abc, collections.abc, typing, itertools, json
 
 from . import use_repo
 
@@ -259,16 +259,16 @@ class TypeFactory:
         return (otypes.Intersection[tuple(a[0] for a in args)], [3] + [a[1] for a in args])
 
     def exa(self, i):
-        return (otypes.Exactly[self.w.classes[i]], [4, next(self.ids), i])
+        return (otypes.Exactly[self.w.classes[i]], [4, 0, i])
 
     def strict(self, i):
-        return (otypes.StrictSubclass[self.w.classes[i]], [5, next(self.ids), i])
+        return (otypes.StrictSubclass[self.w.classes[i]], [5, 0, i])
 
     def hasm(self, m):
-        return (otypes.HasMethod[METHOD_NAMES[m]], [6, next(self.ids), m])
+        return (otypes.HasMethod[METHOD_NAMES[m]], [6, 0, m])
 
     def chk(self, p):
-        return (otypes.class_check(self.w.preds[p]), [7, next(self.ids), p])
+        return (otypes.class_check(self.w.preds[p]), [7, p, p])
 
     def lit(self, vals, bound=None):
         if bound is None:
@@ -415,10 +415,29 @@ class Decoder:
     FN_NAMES = {v: k for k, v in FN_IDS.items()}
     TFN_NAMES = {v: k for k, v in TFN_IDS.items()}
 
-    def __init__(self, world):
+    def __init__(self, world, utab=None, predlog=None):
+        """utab: {fid: [encoded values on which user predicate fid is true]}; predlog: list receiving
+        (fid, encoded value) each time a user predicate is asked"""
         self.w = world
         self.cache = {}
         self.user_types = {}
+        self.utab = {int(k): [json.dumps(x) for x in v] for k, v in (utab or {}).items()}
+        self.predlog = predlog if predlog is not None else []
+
+    def make_pred(self, f):
+        true_set = set(self.utab.get(f, []))
+        log = self.predlog
+        w = self.w
+
+        def pred(value):
+            try:
+                e = enc_val(value, w)
+            except ValueError:
+                e = ["?"]
+            log.append((f, e))
+            return json.dumps(e) in true_set
+        pred.__name__ = f"upred{f}"
+        return pred
 
     def ty(self, e):
         w = self.w
@@ -440,7 +459,7 @@ class Decoder:
         if t == 3:
             return otypes.Intersection[tuple(self.ty(x) for x in e[1:])]
         if t in (4, 5, 6, 7):
-            key = (t, e[1])
+            key = (t, e[1], e[2])
             if key not in self.cache:
                 if t == 4:
                     self.cache[key] = otypes.Exactly[w.classes[e[2]]]
@@ -452,15 +471,23 @@ class Decoder:
                     self.cache[key] = otypes.class_check(w.preds[e[2]])
             return self.cache[key]
         if t == 8:
-            return odep.Equals(*[dec_val(v, w) for v in e[2:]], bound=self.ty(e[1]))
+            vals = [dec_val(v, w) for v in e[2:]]
+            tys = {type(v) for v in vals}
+            default = [0, w.cid(tys.pop())] if len(tys) == 1 else [0, 0]
+            if e[1] == default:
+                return odep.Equals(*vals)          # let the library choose its default bound
+            return odep.Equals(*vals, bound=self.ty(e[1]))
         if t == 9:
             f = e[1]
             params = [typing.Any if p[0] == 0 else dec_val(p[1], w) for p in e[3:]]
             if f in self.FN_NAMES:
                 return getattr(odep, self.FN_NAMES[f])(*params, bound=self.ty(e[2]))
-            if f not in self.user_types:
-                self.user_types[f] = odep.dependent_check(lambda value: True)
-            return self.user_types[f].with_bound(self.ty(e[2]))
+            key = (f, json.dumps(e[2]))
+            if key not in self.user_types:
+                if f not in self.user_types:
+                    self.user_types[f] = odep.dependent_check(self.make_pred(f))
+                self.user_types[key] = self.user_types[f].with_bound(self.ty(e[2]))
+            return self.user_types[key]
         if t == 10:
             return getattr(odep, self.TFN_NAMES[e[1]])(*[self.ty(x) for x in e[3:]], bound=self.ty(e[2]))
         if t == 11:
